@@ -20,9 +20,9 @@ private:
 public:
     template <class ContainerClass>
     explicit TbfParticleSorter(const SpaceIndexType& inSpaceSystem, const ContainerClass& inParticlePositions){
-        particleIndexes.resize(inParticlePositions.size());
+        particleIndexes.resize(std::size(inParticlePositions));
 
-        for(long int idxPart = 0 ; idxPart < static_cast<long int>(inParticlePositions.size()) ; ++idxPart){
+        for(long int idxPart = 0 ; idxPart < static_cast<long int>(std::size(inParticlePositions)) ; ++idxPart){
             particleIndexes[idxPart].first = inSpaceSystem.getIndexFromPosition(inParticlePositions[idxPart]);
             particleIndexes[idxPart].second = idxPart;
         }
@@ -31,9 +31,9 @@ public:
             return p1.first < p2.first;
         });
 
-        leaves.reserve(inParticlePositions.size()/100);
+        leaves.reserve(std::size(inParticlePositions)/100);
 
-        for(long int idxPart = 0 ; idxPart < static_cast<long int>(inParticlePositions.size()) ; ++idxPart){
+        for(long int idxPart = 0 ; idxPart < static_cast<long int>(std::size(inParticlePositions)) ; ++idxPart){
             if(leaves.empty() || leaves.back().first != particleIndexes[idxPart].first){
                 leaves.emplace_back();
                 leaves.back().first = particleIndexes[idxPart].first;
